@@ -20,6 +20,8 @@ RULE = (
 )
 ASSUMPTIONS = ["may-be-escaped set is read generously: any gen-delim/sub-delim, '%', and anything str.isprintable() rejects", "queries are supplied as mappings (k=v pairs)"]
 
+# texts that LOOK like an escape the decoded query view keeps ('%2B', '%3D', '%26', '%3B'), as literal data
+LITERAL_ESCAPES = ["%2B", "%3D", "%26", "%3B", "%2b", "%25", "%252B", "%23", "%3F", "%2F", "%40", "%3A", "%5B", "%20", "%00", "%zz", "%"]
 SPECIAL = ["\xa0", "\xad", "​", "‮", "﻿", "͸", "\U000e0001", "\x85", " ", "é", "€", "😀", "＃", "／", "：", "＠", "？", "℀", "﹕"]
 HOSTS = [("reg", "example.com"), ("idn", "bücher.example"), ("idn2", "例え.jp"), ("ipv4", "127.0.0.1"), ("ipv6", "::1"), ("ipv6zone", "fe80::1%eth0"),
          ("fqdn", "example.com."), ("idn-fqdn", "bücher.example."),
@@ -189,6 +191,14 @@ def run(ctx):
                     check(ctx, mk(h, q=[(t, "v")]), ("qkey", cls, hk))
                     check(ctx, mk(h, q=[("k", t), ("k2", t)]), ("qval", cls, hk))
                     check(ctx, mk(h, fragment=t), ("fragment", cls, hk))
+        for hk, h in HOSTS[:2]:
+            for t in LITERAL_ESCAPES:
+                for tt in (t, "a" + t + "b", t + t):
+                    cls = "lit:" + t
+                    check(ctx, mk(h, user=tt, password=tt), ("userinfo", cls, hk))
+                    check(ctx, mk(h, path="/" + tt + "/x" + tt), ("path", cls, hk))
+                    check(ctx, mk(h, q=[(tt, "v"), ("k", tt)]), ("query", cls, hk))
+                    check(ctx, mk(h, fragment=tt), ("fragment", cls, hk))
         ctx.sample({"kw": mk("bücher.example", user="a@b", password="p:w/d", path="/é #?", q=[("k&", "v=+;")], fragment="f#%")})
         return
     if ctx.part == "shapes":
